@@ -295,6 +295,7 @@ func init() {
 		e.RMapsAllocated()
 		e.RPanicInventory()
 		e.RNilFile()
+		e.RNilResults()
 		e.RIndex()
 		e.RErr(e.pkgs(load.PkgDecorator), 80)
 	})
